@@ -5,7 +5,7 @@ import ast
 import glob
 import os
 
-from .. import astu, flow, types
+from .. import astu, evid, flow, types
 from ..cfg import cfg_of
 from ..model import AnalysisError, Func
 from ..report import key_of
@@ -36,7 +36,12 @@ class Site:
   def __init__(self, f, call):
     self.f, self.call = f, call
     self.kind = 'to' if astu.call_tail(call) == 'to_tree' else 'from'
-    self.tag = _tag_src(astu.kwarg(call, 'ctxtag'))
+    te = astu.kwarg(call, 'ctxtag')
+    if isinstance(te, ast.Name):
+      ds = [d[0] for d in flow.defs(f, te.id)]
+      if len(ds) == 1 and isinstance(ds[0], ast.Constant):
+        te = ds[0]
+    self.tag = _tag_src(te)
     ii = astu.kwarg(call, 'is_inner')
     self.is_inner = ii.value if isinstance(ii, ast.Constant) else (None if ii is None else astu.src(ii))
 
@@ -95,11 +100,12 @@ def r1(R, repo):
       c = cfg_of(f)
       # P2: one tag per function; untagged calls only from the exemption table
       tags = sorted({s.tag for s in tagged})
-      R.check(len(tags) == 1, key_of(f, 'single context tag'), f, 'to_tree/from_tree calls in one function use different context tags %s: objects split under one tag cannot be re-identified under another' % tags)
+      R.check(len(tags) == 1, key_of(f, 'single context tag'), f, evidence=True, msg_fail='to_tree/from_tree calls in one function use different context tags %s: objects split under one tag cannot be re-identified under another' % tags)
       for s in sites:
         if s.tag is None:
           k = (f.fq, astu.src(s.call))
-          R.check(k in UNTAGGED_OK, key_of(f, 'untagged ' + astu.short(s.call, 60)), (f, s.call),
+          exempt = k in UNTAGGED_OK or (f.fq in {k_[0] for k_ in UNTAGGED_OK} and s.call.args and 'residual' in astu.src(s.call.args[0]))
+          R.check(exempt, key_of(f, 'untagged ' + astu.short(s.call, 60)), (f, s.call), evidence=not astu.has_star_kwargs(s.call), msg_fail=
                   '`%s` has no ctxtag although the function works under tag %s: nodes merged without the tag come back as copies instead of the caller\'s own objects' % (astu.short(s.call, 70), tags[0]))
       tag = tags[0]
       froms = [s for s in tagged if s.kind == 'from']
@@ -111,7 +117,7 @@ def r1(R, repo):
           fn = c.nodes_for(s.call)
           tn = [n for t in tos for n in c.nodes_for(t.call)]
           ok = bool(tn) and all(c.must_pass(x, c.exit, tn, avoid_edges=c.exc_edges()) and any(c.can_reach(x, t) for t in tn) for x in fn)
-          R.check(ok, key, (f, s.call), 'an inner from_tree(is_inner=True) must be followed on every path by a to_tree with the same tag %s (the state changes made by the user function are sent back out)' % tag)
+          R.judge(bool(tn), ok, key, (f, s.call), 'an inner from_tree(is_inner=True) must be followed on every path by a to_tree with the same tag %s (the state changes made by the user function are sent back out)' % tag)
         elif s.is_inner is False:
           outer_tags.setdefault(tag, []).append(f)
           fn = c.nodes_for(s.call)
@@ -128,11 +134,11 @@ def r1(R, repo):
               tn2 = [n for t in htos for n in hc.nodes_for(t.call)]
               ok = bool(tn2) and bool(calls) and all(hc.dominated(x, tn2) for x in calls)
               under = any(t == tag and kind == 'decorator' for kind, t, w in _own_context_tags(host)) or all(_under_context(host, x, tag) for x in astu.func_calls(host) if astu.call_name(x) == f.name)
-              R.check(ok, key + ' after to_tree in ' + host.name, (f, s.call), 'the outer from_tree must come after a to_tree with tag %s in %s' % (tag, host.name))
+              R.judge(bool(tn2) and bool(calls), ok, key + ' after to_tree in ' + host.name, (f, s.call), 'the outer from_tree must come after a to_tree with tag %s in %s' % (tag, host.name))
           else:
             ok = bool(tn) and all(c.dominated(x, tn) for x in fn)
-            R.check(ok, key + ' after to_tree', (f, s.call), 'an outer from_tree(is_inner=False) must be dominated by a to_tree with the same tag %s' % tag)
-          R.check(under, key + ' under update_context', (f, s.call),
+            R.judge(bool(tn), ok, key + ' after to_tree', (f, s.call), 'an outer from_tree(is_inner=False) must be dominated by a to_tree with the same tag %s' % tag)
+          R.check(under, key + ' under update_context', (f, s.call), evidence=True, msg_fail=
                   'the outer from_tree with tag %s does not run under graph.update_context(%s): the identity map between the caller\'s objects and the traced copies is missing, so updates land on copies' % (tag, tag))
           # P4: what the merge produced is what is returned
           st = astu.enclosing_stmt(s.call)
@@ -145,7 +151,7 @@ def r1(R, repo):
       nested_froms = [s2 for q2, g in mod.funcs.items() if q2.startswith(q + '.') for s2 in _sites(g) if s2.kind == 'from' and s2.tag == tag]
       for t in tos:
         if not froms and not nested_froms:
-          R.fail(key_of(f, 'to_tree without from_tree'), (f, t.call), 'to_tree with tag %s has no matching from_tree in this function' % tag)
+          R.unsure(key_of(f, 'to_tree without from_tree'), (f, t.call), 'to_tree with tag %s has no matching from_tree in this function' % tag)
   R.require(n_fn >= 20, 'expected >= 20 functions using tagged to_tree/from_tree, found %d' % n_fn)
   # P5: tag table — every inner tag has an outer counterpart and vice versa
   for tag, fs in sorted(inner_tags.items()):
@@ -178,7 +184,7 @@ def r1(R, repo):
                 v = astu.arg_or_kw(x, fields.index('ctxtag'), 'ctxtag')
                 if v is not None and astu.src(v) == tag:
                   linked = True
-      R.check(linked, key, f, 'outer wrapper uses tag %s but no inner function/class is given the same tag' % tag)
+      R.check(linked, key, f, 'outer wrapper uses tag %s but no inner function/class is given the same tag' % tag, evidence=True)
   # self.ctxtag classes: every constructor call passes the tag of the wrapper that owns the update_context
   for mod in _tmods(repo):
     for g in mod.funcs.values():
@@ -202,7 +208,7 @@ def r1(R, repo):
         for h in mod.funcs.values():
           if h.qual == scope_q or h.qual.startswith(scope_q + '.') or h.qual.startswith(g.qual.rsplit('.', 1)[0]):
             opened |= {t for kind, t, w in _own_context_tags(h)}
-        R.check(tag in opened, key, (g, x), '%s receives ctxtag=%s, but the enclosing wrapper opens update_context for %s' % (r[2], tag, sorted(opened)))
+        R.judge(bool(opened), tag in opened, key, (g, x), '%s receives ctxtag=%s, but the enclosing wrapper opens update_context for %s' % (r[2], tag, sorted(opened)))
   # general.split_inputs / merge_inputs call sites agree on the tag
   for mod in _tmods(repo):
     for q, f in mod.funcs.items():
@@ -222,15 +228,18 @@ def r1(R, repo):
       mt = {_tag_src(astu.kwarg(m, 'ctxtag')) for m in merges}
       ctx = {astu.src(n.args[0]) for n in ast.walk(f.node) if isinstance(n, ast.Call) and astu.call_name(n) == 'graph.update_context' and n.args}
       ok = len(st) == 1 and st == mt and bool(merges) and None not in st and (not ctx or ctx == st)
-      R.check(ok, key_of(f, 'split_inputs / merge_inputs tags agree'), f, 'general.split_inputs uses tag(s) %s but general.merge_inputs uses %s (update_context %s)' % (sorted(map(str, st)), sorted(map(str, mt)), sorted(ctx)))
+      R.judge(bool(merges) and None not in st and None not in mt, ok, key_of(f, 'split_inputs / merge_inputs tags agree'), f, 'general.split_inputs uses tag(s) %s but general.merge_inputs uses %s (update_context %s)' % (sorted(map(str, st)), sorted(map(str, mt)), sorted(ctx)))
   gen = repo.mod(TDIR + 'general.py')
   ds = astu.src(astu.param_default(gen.func('split_inputs').node, 'ctxtag'))
   dm = astu.src(astu.param_default(gen.func('merge_inputs').node, 'ctxtag'))
-  R.check(ds == dm, key_of(gen.rel, 'default tags of split_inputs / merge_inputs agree'), gen, 'default ctxtag of split_inputs (%s) and merge_inputs (%s) differ' % (ds, dm))
+  R.check(ds == dm, key_of(gen.rel, 'default tags of split_inputs / merge_inputs agree'), gen, 'default ctxtag of split_inputs (%s) and merge_inputs (%s) differ' % (ds, dm), evidence=True)
   for q in ('split_inputs', 'merge_inputs'):
     f = gen.func(q)
     parts = [x for x in astu.func_calls(f) if astu.call_name(x) == 'functools.partial']
-    R.check(len(parts) == 1 and flow.kw_forwarded(parts[0], 'ctxtag'), key_of(f, 're-entry forwards ctxtag'), f, '%s(f=Missing, ctxtag=T) must return partial(%s, ctxtag=T)' % (q, q))
+    if len(parts) == 1:
+      R.check(flow.kw_forwarded(parts[0], 'ctxtag'), key_of(f, 're-entry forwards ctxtag'), f, '%s(f=Missing, ctxtag=T) must return partial(%s, ctxtag=T)' % (q, q), evidence=not astu.has_star_kwargs(parts[0]))
+    else:
+      R.unsure(key_of(f, 're-entry forwards ctxtag'), f, 'functools.partial re-entry not found')
 
 
 def _ctx_methods(repo, f, seen=None, depth=0):
@@ -297,7 +306,7 @@ def r2(R, repo):
         reps[(s.f.qual, s.kind, nm)] = r_
       vals = set(reps.values())
       n += 1
-      R.check(len(vals) == 1 and None not in vals, key_of(mod.rel, 'tag %s: one representation' % tag), (ss[0].f, ss[0].call),
+      R.judge(None not in vals, len(vals) == 1, key_of(mod.rel, 'tag %s: one representation' % tag), (ss[0].f, ss[0].call),
               'under tag %s the split/merge functions do not all use the same representation (state = ctx.split/ctx.merge, flat = ctx.flatten/ctx.unflatten): %s' % (tag, {k[2]: v for k, v in reps.items()}))
   # classes using self.ctxtag: within one class both directions agree
   for mod in _tmods(repo):
@@ -312,7 +321,7 @@ def r2(R, repo):
         else:
           reps.add(rep(mod, f, astu.kwarg(s.call, 'merge_fn'), dmf, 'merge')[1])
       n += 1
-      R.check(len(reps) == 1 and None not in reps, key_of(f, 'one representation'), f, '%s splits and merges with different representations %s' % (q, reps))
+      R.judge(None not in reps, len(reps) == 1, key_of(f, 'one representation'), f, '%s splits and merges with different representations %s' % (q, reps))
   R.require(n >= 8, 'expected >= 8 tag groups')
 
 
@@ -341,13 +350,15 @@ def r3(R, repo):
   spl = [n for n in c.nodes if isinstance(n.stmt, ast.Assign) and astu.src(n.stmt.targets[0]) == 'tree_node' and isinstance(n.stmt.value, ast.Call) and astu.src(n.stmt.value.func) == 'split_fn']
   t = [n for n in c.nodes if n.kind == 'if' and astu.src(n.ast) == 'check_aliasing']
   R.require(len(spl) == 1, 'to_tree: tree_node = split_fn(...) not found')
-  if not chk:
+  if not chk and evid.calls_deep(repo, tt, evid.call_named('check_consistent_aliasing')):
+    R.unsure(key_of(tt, 'consistent-aliasing check before split'), tt, 'check_consistent_aliasing is called from a helper')
+  elif not chk:
     R.fail(key_of(tt, 'consistent-aliasing check before split'), tt, 'to_tree no longer calls check_consistent_aliasing: aliases under different prefixes would be silently resolved')
   else:
     cut = [(t[0], m, l) for m, l in c.succ[t[0]] if l != 'T'] if t else []
     ok = len(t) == 1 and c.edge_guarded(chk[0], t[0], 'T') and c.must_pass(c.entry, spl[0], chk, avoid_edges=cut)
-    R.check(ok, key_of(tt, 'consistent-aliasing check before split'), tt, 'on the prefix path every graph-node leaf must pass check_consistent_aliasing before split_fn unless check_aliasing is false')
-  R.check(astu.is_const(astu.param_default(tt.node, 'check_aliasing'), True), key_of(tt, 'check_aliasing defaults to True'), tt, 'check_aliasing must default to True')
+    R.judge(len(t) == 1, ok, key_of(tt, 'consistent-aliasing check before split'), tt, 'on the prefix path every graph-node leaf must pass check_consistent_aliasing before split_fn unless check_aliasing is false')
+  R.check(astu.is_const(astu.param_default(tt.node, 'check_aliasing'), True), key_of(tt, 'check_aliasing defaults to True'), tt, 'check_aliasing must default to True', evidence='check_aliasing' in astu.params(tt.node))
   withs = [n for n in c.nodes if n.kind == 'with' and 'graph.split_context(ctxtag)' in astu.src(n.ast)]
   loops = [n for n in c.nodes if n.kind == 'for']
   ok = len(withs) == 2 and len(loops) == 1 and all(any(x is loops[0].stmt for x in ast.walk(w.stmt)) for w in withs[1:])
@@ -380,7 +391,7 @@ def r3(R, repo):
   R.require(len(found) >= 3, 'leaf predicates in extract.py not found')
   for f, n, d in found:
     core = {x for x in d if not x.startswith('flag:')}
-    R.check(core == want, key_of(f, 'graph leaf = graph node or Variable', astu.short(n.test, 50)), (f, n),
+    R.judge(not any(x.startswith('?') for x in core), core == want, key_of(f, 'graph leaf = graph node or Variable', astu.short(n.test, 50)), (f, n),
             '`%s` treats %s as graph leaves, but to_tree splits graph nodes *and* bare Variables: values of the other kind are dropped or not sent back' % (astu.short(n.test, 80), sorted(core)))
 
 
@@ -465,10 +476,11 @@ def r4(R, repo):
   if diff is None and len(ta) != len(tb):
     i = min(len(ta), len(tb))
     diff = (i, ta[i] if i < len(ta) else None, tb[i] if i < len(tb) else None)
-  R.check(diff is None, key_of(mod.rel, '_graph_fingerprint == _check_graph_fingerprint event sequence'), a,
+  skel = lambda ts: [t_ for t_ in ts if t_[0] not in ('emit', 'alloc')]
+  R.judge(skel(ta) == skel(tb), diff is None, key_of(mod.rel, '_graph_fingerprint == _check_graph_fingerprint event sequence'), a,
           'the fingerprint producer and checker diverge at event %s: producer %s, checker %s — a cached jit/cached_partial trace would be accepted or rejected on the wrong element' % (diff[0] if diff else '', diff[1] if diff else '', diff[2] if diff else ''))
   na = len([t for t in ta if t[0] == 'alloc'])
-  R.check(na == 4 and na == len([t for t in tb if t[0] == 'alloc']), key_of(mod.rel, 'index allocation at the same points'), a, 'both sides must allocate ctx.next_index for new nodes and new Variables')
+  R.judge(skel(ta) == skel(tb) and na >= 1, na == len([t for t in tb if t[0] == 'alloc']), key_of(mod.rel, 'index allocation at the same points'), a, 'both sides must allocate ctx.next_index for new nodes and new Variables')
 
 
 @rule('C04.R5', 'K1', 3, 'cached_partial: a structurally changed node is rejected before its Variables are updated')
@@ -480,19 +492,25 @@ def r5(R, repo):
   lt = [n for n in c.nodes if n.kind == 'if' and astu.src(n.ast) == 'len(leaves) != len(static_cache_node.variables)']
   ups = [n for n in c.nodes if n.kind == 'stmt' and (('variable.update_from_state(leaf)' in astu.src(n.stmt)) or astu.src(n.stmt) == 'variable.raw_value = leaf')]
   R.require(len(ups) == 2, 'MergeContext.unflatten: cached variable updates not found')
-  if not t:
-    R.fail(key_of(f, 'graphdef comparison before updating cached variables'), f, 'MergeContext.unflatten no longer compares the cached final graphdef with the incoming one')
+  gd_ne = lambda e: isinstance(e, ast.Compare) and len(e.ops) == 1 and isinstance(e.ops[0], ast.NotEq) and 'final_graphdef' in astu.src(e)
+  gd_eq = lambda e: isinstance(e, ast.Compare) and len(e.ops) == 1 and isinstance(e.ops[0], ast.Eq) and 'final_graphdef' in astu.src(e)
+  key = key_of(f, 'graphdef comparison before updating cached variables')
+  msg = 'on the cached path a graphdef mismatch must raise before any cached Variable is updated'
+  if any(evid.mentions(n.ast, gd_eq) for n in c.nodes if n.kind == 'if'):
+    evid.judge_guard(R, c, ups, gd_eq, key, f, msg)
   else:
-    raises = [n for n in c.nodes if isinstance(n.stmt, ast.Raise) and c.edge_guarded(n, t[0], 'T')]
-    ok = bool(raises) and all(c.edge_guarded(u, t[0], 'F') for u in ups) and len(lt) == 1 and all(c.edge_guarded(u, lt[0], 'F') for u in ups)
-    R.check(ok, key_of(f, 'graphdef comparison before updating cached variables'), f,
-            'on the cached path a graphdef mismatch (and a leaf-count mismatch) must raise before any cached Variable is updated')
+    evid.judge_guard(R, c, ups, gd_ne, key, f, msg, negative=True)
+  ln_ne = lambda e: isinstance(e, ast.Compare) and len(e.ops) == 1 and isinstance(e.ops[0], ast.NotEq) and 'len(leaves)' in astu.src(e)
+  evid.judge_guard(R, c, ups, ln_ne, key_of(f, 'leaf count comparison before updating cached variables'), f, 'a leaf-count mismatch must raise before any cached Variable is updated', negative=True, absent_is_violation=False)
   en = mod.func('UpdateContextManager.__enter__')
   c = cfg_of(en)
   rd = [n for n in c.nodes if isinstance(n.stmt, ast.Assign) and astu.src(n.stmt) == 'static_cache = GRAPH_CONTEXT.tmp_static_cache']
   cl = [n for n in c.nodes if isinstance(n.stmt, ast.Assign) and astu.src(n.stmt) == 'GRAPH_CONTEXT.tmp_static_cache = None']
-  ok = len(rd) == 1 and len(cl) == 1 and c.must_pass(rd[0], c.exit, cl)
-  R.check(ok, key_of(en, 'tmp_static_cache consumed exactly once'), en, 'UpdateContextManager.__enter__ must clear GRAPH_CONTEXT.tmp_static_cache when it takes it')
+  notnone = lambda e: isinstance(e, ast.Compare) and len(e.ops) == 1 and isinstance(e.ops[0], ast.IsNot) and astu.is_const(e.comparators[0], None) and astu.src(e.left) in ('static_cache', 'GRAPH_CONTEXT.tmp_static_cache')
+  isnone = lambda e: isinstance(e, ast.Compare) and len(e.ops) == 1 and isinstance(e.ops[0], ast.Is) and astu.is_const(e.comparators[0], None) and astu.src(e.left) in ('static_cache', 'GRAPH_CONTEXT.tmp_static_cache')
+  none_edges = evid.est_edges(c, notnone, negative=True) + evid.est_edges(c, isnone)
+  ok = len(rd) == 1 and len(cl) >= 1 and c.must_pass(rd[0], c.exit, cl, avoid_edges=none_edges)
+  R.judge(len(rd) == 1, ok, key_of(en, 'tmp_static_cache consumed exactly once'), en, 'UpdateContextManager.__enter__ must clear GRAPH_CONTEXT.tmp_static_cache when it takes it')
   R.check("static_cache = ctx.static_cache if ctx is not None and self.is_inner is False else None" in astu.src(f.node), key_of(f, 'static cache only for the outer merge'), f,
           'the static cache may be consulted only by the outer merge (is_inner is False)')
 
@@ -506,12 +524,14 @@ def r6(R, repo):
     ok = len(tr) == 1 and tr[0].finalbody and ('GRAPH_CONTEXT.%s.pop()' % stack) in astu.src(tr[0].finalbody[0])
     pushes = [s for s in f.node.body if ('GRAPH_CONTEXT.%s.append(' % stack) in astu.src(s)]
     ok = ok and len(pushes) == 1 and f.node.body.index(pushes[0]) < f.node.body.index(tr[0]) and any(isinstance(x, ast.Yield) for s in tr[0].body for x in ast.walk(s))
-    R.check(ok, key_of(f, 'push before try, pop in finally'), f, '%s must push its context, yield inside try and pop in finally' % q)
+    pops_any = [x for x in astu.func_calls(f) if astu.src(x.func) == 'GRAPH_CONTEXT.%s.pop' % stack]
+    R.judge(len(pushes) == 1 and len(tr) == 1 and (not pops_any or bool(tr[0].finalbody)), ok, key_of(f, 'push before try, pop in finally'), f, '%s must push its context, yield inside try and pop in finally' % q)
     fin = ast.Module(body=tr[0].finalbody, type_ignores=[]) if tr else None
     hooks = [x for x in ast.walk(fin) if isinstance(x, ast.Call) and astu.call_tail(x) == hook] if fin else []
     guarded = [n for n in ast.walk(fin) if isinstance(n, ast.If) and astu.src(n.test) == 'ctxtag is not None'] if fin else []
     ok = len(hooks) == 1 and len(guarded) == 1 and any(h is x for x in ast.walk(guarded[0]) for h in hooks)
-    R.check(ok, key_of(f, '%s called in finally when a tag is given' % hook), f, '%s must call ctx.%s in its finally block whenever a ctxtag is given' % (q, hook))
+    all_hooks = [x for x in astu.func_calls(f) if astu.call_tail(x) == hook]
+    R.judge(not all_hooks or len(guarded) == 1, ok, key_of(f, '%s called in finally when a tag is given' % hook), f, '%s must call ctx.%s in its finally block whenever a ctxtag is given' % (q, hook))
   ex = mod.func('UpdateContextManager.__exit__')
   R.check('stack.pop()' in astu.src(ex.node) and 'del GRAPH_CONTEXT.update_context_stacks[self.tag]' in astu.src(ex.node), key_of(ex, 'pops the context it pushed'), ex, 'UpdateContextManager.__exit__ must pop the stack for its tag and drop the empty stack')
   ca = mod.func('UpdateContextManager.__call__.update_context_manager_wrapper')
@@ -539,7 +559,7 @@ def r7(R, repo):
           kwo = astu.kwonly_params(f.node)
           pos = [p for p in astu.pos_params(f.node)[1:]]
           missing = [k for k in kwo + pos if not flow.kw_forwarded(call, k) and (f.name, k) not in REJECTED]
-          R.check(not missing, key_of(f, 're-entry forwards all options'), (f, call),
+          R.check(not missing, key_of(f, 're-entry forwards all options'), (f, call), evidence=not astu.has_star_kwargs(call), msg_fail=
                   '%s(f=Missing, …) returns functools.partial(%s, …) without %s: the option would silently revert to its default when %s is used as a decorator factory' % (f.name, f.name, missing, f.name))
   R.require(n >= 8, 'expected >= 8 decorator re-entry sites, found %d' % n)
 
@@ -553,12 +573,13 @@ def r8(R, repo):
   init = [n for n in c.nodes if n.kind == 'stmt' and 'node_impl.init(node, _get_children())' in astu.src(n.stmt)]
   clear = [n for n in c.nodes if n.kind == 'stmt' and astu.src(n.stmt) == 'node_impl.clear(node)']
   R.require(len(reuse) == 1 and len(init) == 1, '_graph_unflatten: reuse / init statements not found')
-  R.check(bool(clear) and c.must_pass(reuse[0], init[0], clear, avoid_edges=c.exc_edges()), key_of(f, 'clear before init when reusing the caller\'s object'), (f, init[0].stmt),
+  deep_clear = evid.calls_deep(repo, f, lambda y: astu.call_tail(y) == 'clear' and 'node_impl' in astu.src(y.func))
+  R.judge(bool(clear) or not deep_clear, bool(clear) and c.must_pass(reuse[0], init[0], clear, avoid_edges=c.exc_edges()), key_of(f, 'clear before init when reusing the caller\'s object'), (f, init[0].stmt),
           'when an existing object is reused, node_impl.clear(node) must run before node_impl.init(node, children): otherwise attributes deleted inside the transform survive on the caller\'s object')
   tchk = [n for n in c.nodes if n.kind == 'if' and astu.src(n.ast) == 'type(node) != nodedef.type']
-  R.check(len(tchk) == 1 and c.must_pass(reuse[0], init[0], tchk), key_of(f, 'type check on the reused object'), f, 'a reused object must be checked to have the recorded type')
+  R.judge(len(tchk) == 1, len(tchk) == 1 and c.must_pass(reuse[0], init[0], tchk), key_of(f, 'type check on the reused object'), f, 'a reused object must be checked to have the recorded type')
   reg = [n for n in c.nodes if isinstance(n.stmt, ast.Assign) and astu.src(n.stmt) == 'index_ref[nodedef.index] = node']
-  R.check(len(reg) == 1 and c.dominated(init[0], reg), key_of(f, 'registered before children are built'), f, 'index_ref[nodedef.index] = node must precede init(node, children) so that cycles resolve to the node itself')
+  R.judge(len(reg) == 1, len(reg) == 1 and c.dominated(init[0], reg), key_of(f, 'registered before children are built'), f, 'index_ref[nodedef.index] = node must precede init(node, children) so that cycles resolve to the node itself')
 
 
 meta('C04',
